@@ -21,6 +21,7 @@ From PowHsm Require Import Proofs.SrcEquivParamsProtoM.
 From PowHsm Require Import Proofs.SrcEquivGateM.
 From PowHsm Require Import Proofs.SrcLiftGate.
 From PowHsm Require Import Proofs.SrcEquivGateV1M.
+From PowHsm Require Import Proofs.SrcEquivSendCommandM.
 Open Scope N_scope.
 
 (* for every request and every device script, sign answers only codes docs/protocol.md lists for sign plus the generic ones (closed check on the generated tables vs the generated doc lists) *)
@@ -443,5 +444,23 @@ Theorem C04_source_whole_request_path_v1_is_model :
          srcm_HSM1ProtocolLedger____internal_handle_request cm init self (of_json request) w =
          mres of_json (handle_request keccak kind V1 request w).
 Proof. exact (@srcm_handle_request_v1_ok). Qed.
+
+(* _send_command of the source (APDU framing, exchange, classification of what the transport raises) as translated over the transport primitive = the model's send_command with its classify, on every world *)
+Theorem C04_source_send_command_is_model :
+  forall (cls : string) (fields : list (string * pv)) (cmd : N) (data : bytes) 
+           (timeout : pv) (w : world),
+         cmd < 256 ->
+         srcm_HSM2Dongle___send_command (VObj cls fields) (VInt (Z.of_N cmd)) (VBytes data) timeout w =
+         mres VBytes (send_command cmd data w).
+Proof. exact (@srcm_send_command_source_ok). Qed.
+
+(* the primitive every translated device-facing function calls IS the translated _send_command *)
+Theorem C04_source_send_command_is_the_primitive :
+  forall (cls : string) (fields : list (string * pv)) (cmd : N) (data : bytes) 
+           (timeout : pv) (w : world),
+         cmd < 256 ->
+         srcm_HSM2Dongle___send_command (VObj cls fields) (VInt (Z.of_N cmd)) (VBytes data) timeout w =
+         MV.m_send_command (VInt (Z.of_N cmd)) (VBytes data) w.
+Proof. exact (@srcm_send_command_is_primitive). Qed.
 
 Example C04_nonvacuous : True. Proof. exact I. Qed. (* concrete runs closed by vm_compute in Proofs/C04.v: blockchainState on Status 0x6B87 / silent device / bad opcode / 0x6F00 answers -905; sign on ERR_SIGN_INVALID_PATH answers -103; ex_error_result_escapes_* exhibit the reconnection-bring-up observation recorded in DESIGN.md *)
